@@ -216,8 +216,10 @@ def run_triple(ns, kits, kit, vname, mname, nname, rng, chain_len, tlen, ids="di
         for _ in range(100):
             mt = instance_with(M.structure(), ovs[i], ovs[i + 1], rng, tlen, avoid, edge=edges[i])
             ent = M(CircularRecord(Seq(ba.rotate(mt, rng.randrange(len(mt)))), id=dict(distinct="mod%d" % i, assembly="assembly").get(ids, "<unknown id>")))
-            if ent.is_valid():
+            if ent.is_valid() and (not scar or ba.count_sites(mt, M.cutter) == (1, 1)):
                 break
+        if scar and not (ent.is_valid() and ba.count_sites(mt, M.cutter) == (1, 1)):
+            return None        # (the letters completing the site across the junction made a site inside this module: no such scenario)
         mods.append(ent)
         targets.append(str(ent.target_sequence().seq))
     return vec, mods, targets, N
@@ -299,6 +301,8 @@ def two_level_cidar(ns, kits, rng):
     avoid = sites_of(cid.CIDARDeviceVector, cid.CIDARDevice)
     dtext = instance_with(cid.CIDARDeviceVector.structure(), o5, o3, rng, 6, avoid)
     dvec = cid.CIDARDeviceVector(CircularRecord(Seq(dtext), id="dvec", name="dvec"))
+    if not dvec.is_valid():
+        return True, "generator artefact (a further site slipped into the generated device vector); skipped"
     got2, prod2, _ = ba.run_assembly(dvec, [cas], id="dev1", name="dev1")
     if got2[0] != "product":
         return False, "device assembly of the cassette-level product ended with %r" % (got2,)
